@@ -2,6 +2,7 @@
 package main
 
 import (
+	"encoding/json"
 	"flag"
 	"fmt"
 	"os"
@@ -10,7 +11,7 @@ import (
 	"strings"
 
 	"verif/mc/core"
-	_ "verif/mc/props"
+	"verif/mc/props"
 )
 
 func main() {
@@ -60,6 +61,9 @@ func main() {
 		}
 		fs.Parse(os.Args[3:])
 		os.Exit(core.ReplayMain(os.Args[2], *times, *expect))
+	case "dump-annotations":
+		b, _ := json.MarshalIndent(props.C09DumpAnnotations(), "", " ")
+		os.Stdout.Write(append(b, '\n'))
 	case "list":
 		for id := range core.Props {
 			fmt.Println(id)
